@@ -4,7 +4,7 @@ from __future__ import annotations
 import time
 
 from .. import gmodel as G
-from ..engine import Chooser, call, confirm_violations, explore_task, finish, harness, parallel
+from ..engine import Chooser, HarnessError, call, confirm_violations, explore_task, finish, harness, parallel
 from ..eq import diff, same
 from .c01 import pick_instance
 
@@ -38,6 +38,27 @@ def classify(spec: G.ModelSpec, exprs, obj, err: BaseException | None, d: str | 
 CATS = G.CATS_ALL + ["special"]
 
 
+def twin_spec(spec: G.ModelSpec):
+    """Same class names and fields in another module, but every default that can be changed is another value of the field's alphabet.
+    Rendering an instance of the twin first leaves whatever the serializer remembers about 'class Root' from the wrong class."""
+    import copy
+    tw = copy.deepcopy(spec)
+    changed = False
+    for f in tw.fields:
+        if f.default is None or "init-false" in f.tags:
+            continue
+        cur = f.default[8:] if f.default.startswith("factory:") else f.default
+        for v in f.values:
+            if v in ("<skip>", "None") or v == cur or "Root." in v:
+                continue
+            if cur in ("dict", "list") and v in ("{}", "[]"):
+                continue
+            f.default = v if v[0] not in "[{" and not v.startswith(("AnyElement", "DerivedElement", "Wrap", "Child", "Other")) else f"factory:lambda: {v}"
+            changed = True
+            break
+    return tw if changed else None
+
+
 @harness("c18.eval")
 def h_eval(ch: Chooser, vec: list, maxf: int, free_values: bool = True):
     spec = G.model_from_vector(vec, maxf, CATS)
@@ -45,9 +66,27 @@ def h_eval(ch: Chooser, vec: list, maxf: int, free_values: bool = True):
     try:
         exprs = pick_instance(ch, spec, free_values)
         var = ch.pick(["v", "obj"], "var_name")
+        history = ch.choose(2, "serializer-history", free=True)
         case = {"model": model.source.split("XmlTime\n", 1)[-1].strip(), "instance": model.instance_source(exprs), "var": var}
         obj = model.instance(exprs)
-        r = call(PycodeSerializer(context=XmlContext()).render, obj, var)
+        ser = PycodeSerializer(context=XmlContext())
+        if history:
+            # the same serializer has rendered an instance of a same-named class of another module before
+            tw = twin_spec(spec)
+            if tw is None:
+                return {"skip": True, "reason": "no default of this model can be varied"}
+            try:
+                twin = G.Model(tw)
+            except HarnessError:
+                return {"skip": True, "reason": "twin model with other defaults does not compile"}
+            try:
+                case["history"] = "the serializer rendered an instance of this twin first: " + twin.source.split("XmlTime\n", 1)[-1].strip()
+                t = call(lambda: ser.render(twin.instance(exprs), var))
+                if t[0] == "exc":
+                    return {"skip": True, "reason": "twin instance not renderable"}
+            finally:
+                twin.release()
+        r = call(ser.render, obj, var)
         if r[0] == "exc":
             return dict(ok=False, case=case, bucket=f"render-raises/{type(r[1]).__name__}", detail=repr(r[1]))
         code = r[1]
@@ -60,7 +99,7 @@ def h_eval(ch: Chooser, vec: list, maxf: int, free_values: bool = True):
             return dict(ok=False, case=case, bucket="variable-not-bound", detail=code)
         if not same(ns[var], obj):
             d = diff(obj, ns[var])
-            return dict(ok=False, case=case, bucket=classify(spec, exprs, obj, None, d), detail=f"{d}\n{code}")
+            return dict(ok=False, case=case, bucket=("after-twin/" if history else "") + classify(spec, exprs, obj, None, d), detail=f"{d}\n{code}")
         return dict(ok=True, case=case, obs=str(code.count("\n")), nontrivial=(G.h(model.source), tuple(exprs)))
     finally:
         model.release()
@@ -82,7 +121,8 @@ def run(tier: str, seed: int) -> int:
         rule=(f"G-model binding models (<= {maxf} fields, <= {dm} grammar deviations; incl. inner classes and inner enums, frozen models with tuples, generics, "
               "attribute maps) x full product of the value alphabets (non-finite floats, Decimals, QNames, bytes, date/time values, empty and nested "
               "collections); rendered source is exec'd in an empty namespace and the bound variable compared structurally. Distinct = (model, instance)."),
-        assumptions=["structural equality with exact leaf types, NaN-aware", "the synthetic model module is importable (in sys.modules) while the source runs"],
+        assumptions=["structural equality with exact leaf types, NaN-aware", "the synthetic model module is importable (in sys.modules) while the source runs",
+                     "history leg: the serializer instance is either fresh or has just rendered the same values as an instance of a same-named class with other defaults from another module"],
         bound={"max_fields": maxf, "model_deviations": dm, "models": len(vecs)},
         extra={"programs": len(vecs)},
     )
